@@ -706,7 +706,8 @@ class Interp:
         a["print"] = YNative("print", n_print)
         names = ["Type", "Object", "Nil", "Bool", "Num", "Func", "BuiltIn", "Method", "BuiltInMethod", "String"]
         if core_ready:
-            names += ["Iter", "MapIter", "FilterIter", "Tuple", "Vec", "Range", "HashMap", "Fiber"]
+            names += ["Iter", "MapIter", "FilterIter", "Tuple", "Vec", "Range", "HashMap", "Fiber", "Error", "StopIter"]
+            names += ERROR_CLASSES
         for n in names:
             a[n] = self.classes[n]
         if self.host_natives and module.path == "main":
